@@ -203,7 +203,9 @@ func (t *throttler) Next() bool {
 	t.cond.L.Lock()
 	defer t.cond.L.Unlock()
 
-	for !t.waiting && !t.stop {
+	// A permission granted inside the period (trailing mode) is handed out
+	// only when the period is over, also to a caller which arrives later.
+	for !t.stop && (!t.waiting || time.Since(t.last) <= t.duration) {
 		t.cond.Wait()
 	}
 
